@@ -37,12 +37,34 @@
 (*                   BEFORE it stores the new class (FALSE: stores first,  *)
 (*                   so `class X : X` finds itself, is accepted and is its *)
 (*                   own ancestor from then on)                            *)
+(*   GuardCanonical  the include guard of compile_file compares canonical  *)
+(*                   (absolute, normalised) paths (FALSE: the path as it   *)
+(*                   was spelled; a cycle through a path with a redundant  *)
+(*                   ./ or x/../ component yields a longer spelling on     *)
+(*                   every level and is never recognised)                  *)
+(*   RegisterAfterCreate  p_mp_createClass records the class name in       *)
+(*                   parser.classnames (names of classes known to exist)   *)
+(*                   only after CreateClass succeeded (FALSE: before the   *)
+(*                   retry loop, also when the class could not be created: *)
+(*                   a later class depending on that name skips the lookup *)
+(*                   / search-path compile of it and is rejected; the list *)
+(*                   holds lower-cased names and is searched with the name *)
+(*                   as spelled, so only a lower-case spelling hits)       *)
+(*   NsCachesInit    `#pragma namespace` creates BOTH per-namespace caches *)
+(*                   (FALSE: only the qualifier cache; the dependency      *)
+(*                   fix-up of p_mp_createClass indexes parser.classnames  *)
+(*                   with the namespace: KeyError)                         *)
+(*   EmbNullChecked  the dependency fix-up skips an EmbeddedInstance       *)
+(*                   qualifier without a value (FALSE: None.lower())       *)
+(*   OverflowWrapped OverflowError of the value conversions (int -> float) *)
+(*                   is translated like ValueError/TypeError               *)
 (***************************************************************************)
 EXTENDS MofCompile
 
 CONSTANTS IncludeGuard, NsNoneCheck, HexBounds, CtxBounds, ValueWrapped,
           RepoWrapped, EmbFinally, RestoreOnReturn, EmbRestoreAll,
-          SuperCheckFirst
+          SuperCheckFirst, GuardCanonical, RegisterAfterCreate, NsCachesInit,
+          EmbNullChecked, OverflowWrapped
 
 AnyMof == {"ok"} \cup MOFErrors
 
@@ -118,7 +140,26 @@ RepoOut(p) ==
 (*      cyc  the class an `of_prev` instance names is its own ancestor in  *)
 (*           the repository: GetClass(LocalOnly=False) follows the         *)
 (*           superclass chain recursively and never ends                   *)
+(*      reg  the name of a class that could NOT be created is in           *)
+(*           parser.classnames                                             *)
+(*      nsinit  parser.classnames has an entry for the target namespace    *)
 UsesPrelude(p) == p.k \in {"class", "instance"}
+
+(* valid productions of the "good" text that depend on the class the       *)
+(* session failed to declare; the first three make p_mp_createClass run    *)
+(* its dependency fix-up, which consults parser.classnames                 *)
+ConsultsClassnames(p) ==
+  p.k = "class" /\ p.d = "none"
+  /\ p.v \in {"ref_failed", "emb_failed", "param_failed"}
+
+(* a failing class production that got as far as p_mp_createClass *)
+ReachesCreate(p) ==
+  p.k = "class" /\ ((p.d = "dependency" /\ p.v # "unknown_qualifier")
+                    \/ (p.d = "repo" /\ p.v # "EnumerateQualifiers"))
+
+(* the dependency fix-up of p_mp_createClass runs (CreateClass was rejected *)
+(* because of an unresolved REF / EmbeddedInstance class)                   *)
+FixupRuns(p) == p.k = "class" /\ p.d = "dependency" /\ p.v \in SibKinds
 
 ImplProd(p, env) ==
   IF env.emb /\ p.k \in {"qualDecl", "class"} /\ p.d \in {"none", "value",
@@ -131,6 +172,8 @@ ImplProd(p, env) ==
   CASE p.d = "none" ->
          IF p.v = "hexesc_end" THEN {IF HexBounds THEN "ok" ELSE "IndexError"}
          ELSE IF p = OfPrev /\ env.cyc THEN {"RecursionError"}
+         ELSE IF ConsultsClassnames(p) /\ env.reg /\ p.a = 1
+         THEN {"MOFDependencyError"}   \* lookup skipped: "already known"
          ELSE {"ok"}
     [] p.d = "lex" ->
          IF p.k = "garbage" THEN {"MOFParseError"}
@@ -151,6 +194,8 @@ ImplProd(p, env) ==
          THEN IF p.v = "hexesc_name"
               THEN {IF HexBounds THEN "OSError" ELSE "IndexError"}
               ELSE {"OSError"}
+         ELSE IF p.v = "real_huge_int" /\ ~OverflowWrapped
+         THEN {"OverflowError"}
          ELSE IF StrictValue(p.k, p.v) /\ ~ValueWrapped
                  /\ ~(p.k = "instance" /\ p.v # "huge_digits"
                       /\ LegacyValueExc(p.k, p.v) = "ValueError")
@@ -166,6 +211,9 @@ ImplProd(p, env) ==
          ELSE IF p.v \in {"super_cycle_searchpath", "class_cycle_searchpath"}
          THEN IF IncludeGuard THEN {"MOFParseError", "MOFDependencyError"}
               ELSE {"RecursionError"}
+         ELSE IF FixupRuns(p) /\ p.a \in {1, 5} /\ ~EmbNullChecked
+         THEN {"AttributeError"}
+         ELSE IF FixupRuns(p) /\ ~env.nsinit THEN {"KeyError"}
          ELSE {"MOFDependencyError", "MOFRepositoryError"}
     [] p.d = "repo" -> {RepoOut(p)}
     [] OTHER -> {"UNKNOWN"}
@@ -201,7 +249,8 @@ PredictSeq(ses, prods, i, nsw, loose) ==
                            /\ p.v \in {"self", "mutual"}
                    THEN MOFErrors
                    ELSE ImplProd(p, [nsw |-> nsw, emb |-> FALSE,
-                                     cyc |-> FALSE])
+                                     cyc |-> FALSE, reg |-> FALSE,
+                                     nsinit |-> TRUE])
            nsw2 == nsw \/ (p.k = "namespace" /\ p.d = "none" /\ p.v = "other")
                        \/ (p.k = "include" /\ p.v = "inc2"
                            /\ \E q \in Rng(ses.inc) :
@@ -213,8 +262,8 @@ PredictSeq(ses, prods, i, nsw, loose) ==
        \cup (IF "ok" \in here
              THEN PredictSeq(ses, prods, i + 1, nsw2, loose2) ELSE {})
 
-\* valid helper productions of the parts D and E count like context
-Neutral == Ctx \cup {Inc2} \cup Helpers
+\* valid helper productions of the parts D, E and G count like context
+Neutral == Ctx \cup {Inc2} \cup Helpers \cup {NsFull}
 NonPlain(ses) == {i \in DOMAIN ses.main : ses.main[i] \notin Neutral}
 NonPlainInc(ses) == {i \in DOMAIN ses.inc : ses.inc[i] \notin Neutral}
 Predict(ses) ==
